@@ -3,9 +3,11 @@ module verif/h
 go 1.23
 
 require (
+	github.com/golang-jwt/jwt/v4 v4.0.0
 	github.com/nats-io/nats.go v1.31.0
 	github.com/simpleiot/simpleiot v0.0.0
 	google.golang.org/protobuf v1.27.1
+	modernc.org/sqlite v1.18.0
 )
 
 require (
@@ -25,7 +27,6 @@ require (
 	github.com/go-ocf/go-coap v0.0.0-20200224085725-3e22e8f506ea // indirect
 	github.com/goccy/go-yaml v1.11.2 // indirect
 	github.com/godbus/dbus/v5 v5.1.0 // indirect
-	github.com/golang-jwt/jwt/v4 v4.0.0 // indirect
 	github.com/golang/protobuf v1.5.2 // indirect
 	github.com/google/uuid v1.3.0 // indirect
 	github.com/gorilla/websocket v1.4.1 // indirect
@@ -61,7 +62,6 @@ require (
 	modernc.org/libc v1.16.7 // indirect
 	modernc.org/mathutil v1.4.1 // indirect
 	modernc.org/memory v1.1.1 // indirect
-	modernc.org/sqlite v1.18.0 // indirect
 )
 
 replace github.com/simpleiot/simpleiot => /repo
